@@ -272,6 +272,12 @@ def run(ctx):
     cfg = ctx.cfg(sort)
     appends = [c for c in q.calls(sort) if isinstance(c.func, ast.Attribute) and c.func.attr in ("append", "extend")
                and q.self_attr_root(c.func.value) == CACHE]
+    # a local that stands for the event's cache entry as it is (`lst = self.<cache>.setdefault(name, [])`, `lst = self.<cache>[name]`): appending to it appends to the entry
+    entry_locals = {t.id for n in walk_no_nested(sort.node) if isinstance(n, ast.Assign)
+                    and ((isinstance(n.value, ast.Call) and isinstance(n.value.func, ast.Attribute) and n.value.func.attr in ("setdefault", "get") and is_self_attr(n.value.func.value, CACHE))
+                         or (isinstance(n.value, ast.Subscript) and is_self_attr(n.value.value, CACHE)))
+                    for t in n.targets if isinstance(t, ast.Name)}
+    appends += [c for c in q.calls(sort) if isinstance(c.func, ast.Attribute) and c.func.attr in ("append", "extend") and isinstance(c.func.value, ast.Name) and c.func.value.id in entry_locals]
     stores = [(n, t) for n, k, t in q.writes_to_self_attr(sort, CACHE) if k == "substore" and isinstance(n, ast.Assign)]
     ctx.require(appends or stores, "_sort_listeners never writes the sorted cache")
     fresh_nodes = set()
@@ -650,6 +656,7 @@ def run(ctx):
                     r.ok("%s.%s: `%s` tested against None" % (ed.name, name, a))
     ctx.require(n14 >= 1, "the optional event-name parameters of the dispatcher's queries were not found")
 
+    ctx.borrow("c17", "C17-R6", "C12-R15", "'listeners registered on a dispatcher': the listener store and its sorted cache belong to one dispatcher object - no class-level container of the event classes is mutated")
     return ctx.results
 
 
